@@ -307,13 +307,13 @@ theorem idx_decode (q h' w' bh bw : Nat) (hh : h' < bw) (hw : w' < bh) :
 
 end CscrAux
 
-theorem bcsr_transpose_spec {α : Type} [Zero α] [Add α] (A : Bcsr α) (h : A.wf = true)
+theorem bcsr_transpose_spec_nz {α : Type} [Zero α] [Add α] (A : Bcsr α) (h : A.wf = true)
     (hs : ((List.range A.rows).all fun i =>
       (List.range' (A.rowPtr.getD i 0) (A.rowPtr.getD (i + 1) 0 - A.rowPtr.getD i 0 - 1)).all fun k =>
         A.colInd.getD k 0 < A.colInd.getD (k + 1) 0) = true)
     (hbh : 0 < A.bh) (hbw : 0 < A.bw) (hnz : 0 < A.usedElements) :
     A.transpose.bh = A.bw ∧ A.transpose.bw = A.bh ∧ A.transpose.rows = A.cols ∧ A.transpose.cols = A.rows ∧
-    A.transpose.wf = true ∧
+    (A.transpose.wf = true ∧ A.transpose.sortedRows = true) ∧
     ∀ i j, i < A.rows * A.bh → j < A.cols * A.bw → A.transpose.entry j i = A.entry i j := by
   have hn' : ¬ A.usedElements = 0 := by omega
   let S : Csr Nat := ⟨A.rows, A.cols, A.rowPtr, A.colInd, Array.range A.usedElements⟩
@@ -335,7 +335,11 @@ theorem bcsr_transpose_spec {α : Type} [Zero α] [Add α] (A : Bcsr α) (h : A.
     unfold Bcsr.transpose
     rw [if_neg hn']
   rw [eT]
-  refine ⟨rfl, rfl, rfl, rfl, ?_, ?_⟩
+  refine ⟨rfl, rfl, rfl, rfl, And.symm ⟨?_, ?_⟩, ?_⟩
+  · have hsT := (V_to hvT).2
+    simp only [Csr.sortedRows, Csr.rowBegin, Csr.rowEnd] at hsT
+    rw [ht.rows] at hsT
+    exact hsT
   · have hw := (V_to hvT).1
     simp only [Csr.wf, Bool.and_eq_true] at hw
     obtain ⟨⟨⟨⟨⟨h1, h2⟩, h3⟩, h4⟩, h5⟩, h6⟩ := hw
@@ -386,5 +390,59 @@ theorem bcsr_transpose_spec {α : Type} [Zero α] [Add α] (A : Bcsr α) (h : A.
             + (pos S k * A.bw * A.bh + (j % A.bw) * A.bh + i % A.bh) % (A.bh * A.bw) / A.bh) 0 := by
         simp [val', Array.getD, hidx]
       rw [this, d1, d2, d3, gk]
+
+/-- the Boolean `Bcsr.wf`/`Bcsr.sortedRows` of `A` as the `V` structure of its index matrix -/
+theorem CscrAux.bcsr_V {α : Type} (A : Bcsr α) (h : A.wf = true) (hs : A.sortedRows = true) :
+    V (⟨A.rows, A.cols, A.rowPtr, A.colInd, Array.range A.usedElements⟩ : Csr Nat) := by
+  refine V_of ?_ hs
+  simp only [Bcsr.wf, Bool.and_eq_true] at h
+  obtain ⟨⟨⟨⟨⟨h1, h2⟩, h3⟩, _⟩, h5⟩, h6⟩ := h
+  simp only [Csr.wf, Bool.and_eq_true]
+  refine ⟨⟨⟨⟨⟨h1, h2⟩, ?_⟩, ?_⟩, h5⟩, h6⟩
+  · simpa [Bcsr.usedElements] using h3
+  · simp [Bcsr.usedElements]
+
+theorem CscrAux.bcsr_arrayless_valid {α : Type} (bh bw r c : Nat) :
+    (⟨bh, bw, r, c, #[], #[], #[]⟩ : Bcsr α).valid = true := by
+  simp [Bcsr.valid, Bcsr.isArrayless]
+
+theorem CscrAux.bcsr_arrayless_entry {α : Type} [Zero α] [Add α] {A : Bcsr α} (h : A.rowPtr = #[]) (i j : Nat) :
+    A.entry i j = 0 := by
+  unfold Bcsr.entry
+  split
+  · rfl
+  · exact foldRange_nohit (fun k => A.colInd.getD k A.cols = j / A.bw) _ _ _ _ (by
+      intro k h1 h2
+      simp [h] at h2)
+
+theorem bcsr_transpose_spec {α : Type} [Zero α] [Add α] (A : Bcsr α) (h : A.valid = true) (hbh : 0 < A.bh) (hbw : 0 < A.bw) :
+    A.transpose.bh = A.bw ∧ A.transpose.bw = A.bh ∧ A.transpose.rows = A.cols ∧ A.transpose.cols = A.rows ∧
+    A.transpose.valid = true ∧
+    ∀ i j, i < A.rows * A.bh → j < A.cols * A.bw → A.transpose.entry j i = A.entry i j := by
+  by_cases h0 : A.usedElements = 0
+  · have eT : A.transpose = ⟨A.bw, A.bh, A.cols, A.rows, #[], #[], #[]⟩ := if_pos h0
+    rw [eT]
+    refine ⟨rfl, rfl, rfl, rfl, bcsr_arrayless_valid _ _ _ _, fun i j hi _ => ?_⟩
+    rw [bcsr_arrayless_entry rfl]
+    simp only [Bcsr.valid, Bool.or_eq_true, Bool.and_eq_true] at h
+    rcases h with ha | ⟨hw, hs⟩
+    · simp only [Bcsr.isArrayless, Bool.and_eq_true, Array.isEmpty_iff] at ha
+      exact (bcsr_arrayless_entry ha.1.1 i j).symm
+    · have hv := bcsr_V A hw hs
+      have hI : i / A.bh < A.rows := Nat.div_lt_of_lt_mul (by rw [Nat.mul_comm]; exact hi)
+      unfold Bcsr.entry
+      rw [if_neg (by omega)]
+      exact (foldRange_nohit (fun k => A.colInd.getD k A.cols = j / A.bw) _ _ _ _ (by
+        intro k h1 h2
+        have := inRow_lt_size hv hI ⟨h1, h2⟩
+        have e : (Array.range A.usedElements).size = 0 := by simp [h0]
+        exact absurd this (by rw [show ∀ (a b c d e), (Csr.mk a b c d e : Csr Nat).val = e from fun _ _ _ _ _ => rfl, e]; omega))).symm
+  · simp only [Bcsr.valid, Bool.or_eq_true, Bool.and_eq_true] at h
+    rcases h with ha | ⟨hw, hs⟩
+    · simp only [Bcsr.isArrayless, Bool.and_eq_true, Array.isEmpty_iff] at ha
+      exact absurd (by simp [Bcsr.usedElements, ha.1.2]) h0
+    · obtain ⟨a1, a2, a3, a4, ⟨a5, a6⟩, a7⟩ := bcsr_transpose_spec_nz A hw hs hbh hbw (by omega)
+      refine ⟨a1, a2, a3, a4, ?_, a7⟩
+      simp [Bcsr.valid, a5, a6]
 
 end C02L
